@@ -129,7 +129,7 @@ register("C08 Also regenerated: what _try_use_preaggregation asks the matcher an
          "the code's `_is_measure_derivable`, REGENERATED from preagg_matcher.py on every run, admits a metric only without own filters, listed in the rollup, with sum/count/min/max, or avg with a count measure (C08_derivable_sound); "
          "witnesses show why median/stddev, filtered measures, AVG-stored-as-AVG and raw-timestamp filters must not be routed. Tied to the code by executing generated rollups/queries: compile(use_preaggregations=True) vs False on a database whose "
          "rollups were built with the layer's own statement, every routing decision audited against the Coq criterion `exactly_derivable`, and Model/Preagg evaluated in Coq against the routed rows. "
-         "Partial: the routing decision procedure (can_satisfy_query, filter-column extraction, scoring) is audited on generated cases, not modelled; known-finding classes K3 (avg), K6 (raw time filter), K8 (count over no rows). Regenerated on every run: the verdicts of can_satisfy_query on 1920 scripted scenarios; C08_matcher_table (model == code) and C08_matcher_sound (an admitted query only uses rollup columns, derivable metrics and a passed granularity test).",
+         "Partial: the routing decision procedure (can_satisfy_query, filter-column extraction, scoring) is audited on generated cases, not modelled; known-finding classes K3 (avg), K6 (raw time filter). Regenerated on every run: the verdicts of can_satisfy_query on 1920 scripted scenarios; C08_matcher_table (model == code) and C08_matcher_sound (an admitted query only uses rollup columns, derivable metrics and a passed granularity test).",
          "Trusted: translator/pyinterp.py + gen_satisfy.py (fail-closed, validated against CPython each run); Coq kernel; gen_derivable / gen_grancompat translators (fail-closed, validated each run); Model/Preagg.v hand-written (one coded dimension and non-NULL integer values stand for the dimension tuple / measure values), tied by differential testing; DuckDB as oracle. No axioms.",
          "Coq proof (regrouping of decomposable aggregates over a partition, semilattice fold for min/max, calendar nesting) over a hand-written rollup model + translator-regenerated derivability; routed-vs-unrouted execution and decision audit; translator-regenerated matcher verdict table", "DESIGN.md section 6/C08")
 
